@@ -26,7 +26,7 @@ RULE = (
     "ground truth for ignored files. Non-trivial = the history contains a mutating command or a fault fired; distinct = distinct "
     "plan digests"
 )
-EXPECTED_PROBES = ["covered.symlink_skipped", "annotate.write", "annotate.force_dot_license_touch", "convert.unlink",
+EXPECTED_PROBES = ["covered.symlink_skipped", "annotate.write", "annotate.force_dot_license", "convert.unlink",
                    "download.licenseref_touch", "annotate.skip_unrecognised"]
 ASSUMPTIONS = (
     ".git/ is excluded from the comparison: 'git status', which reuse runs, may refresh Git's own index",
